@@ -163,9 +163,15 @@ def run(F, chk):
                 continue
             sev.setdefault((ev.path, ev.kind), []).append(ev)
         en = {}
+        en_guards = {}
         for short, kind in ENUMS.items():
             f = _final(F, D, short)
-            en[kind] = set(ev.path for ev in E.events(f["id"])) if f else set()
+            evs_e = E.events(f["id"]) if f else []
+            en[kind] = set(ev.path for ev in evs_e)
+            for ev in evs_e:
+                # data conditions under which the enumerator reports the path (loop-variable comparisons are not conditions)
+                g = frozenset((x[0], x[1]) for x in ev.guards if not (len(x) > 2 and x[2]))
+                en_guards.setdefault((kind, ev.path), []).append(g)
         for (p, kind), evs in sorted(sev.items(), key=lambda x: render(x[0][0])):
             n_paths += 1
             rp = render(p)
@@ -177,9 +183,18 @@ def run(F, chk):
                 continue
             owner, fld = F.find_field(D, p[1]) if len(p) > 1 else (D, None)
             owners.add(owner)
+            stronger = None
             if kind == "ref":
                 ok = p in en["child"] or p in en["ptr"]
                 live = None
+                if ok:
+                    # the enumerator must not report the reference under a stronger condition than the one it is serialised under
+                    sg = [frozenset((x[0], x[1]) for x in ev.guards) for ev in evs]
+                    eg = en_guards.get(("child", p), []) + en_guards.get(("ptr", p), [])
+                    if not all(any(g <= s_ for g in eg) for s_ in sg):
+                        ok = False
+                        s0 = [s_ for s_ in sg if not any(g <= s_ for g in eg)][0]
+                        stronger = sorted(min((g - s0 for g in eg), key=len))
             else:
                 live = sorted(set(x for ev in evs for x in _live_versions(ev, VE, vers)))
                 ok = p in en["str"] or not live
@@ -200,6 +215,15 @@ def run(F, chk):
                     if wfn is None and first:
                         wfn, wloc = F.fns.get(first[0]), first[1]
                     w = "%s:%s" % (wfn.get("file"), (wloc or "").split(":")[0]) if wfn else "?"
+                    if stronger:
+                        chk.violation("R5.1", key, w,
+                                      "block reference `%s` of %s is reported by its enumerator only under the additional condition(s) %s, "
+                                      "but it is serialised (%s) also when they do not hold" % (
+                                          rp, owner, ["%s%s" % ("" if pol else "!", k) for k, pol in stronger],
+                                          " > ".join(F.fns[c[0]]["name"] for c in evs[0].chain if c[0] in F.fns)),
+                                      {"live_versions": live})
+                        reported[key]["classes"].append(D)
+                        continue
                     chk.violation("R5.1", key, w,
                                   "%s reference `%s` of %s is serialised (%s) but not reported by %s" % (
                                       "string" if kind == "str" else "block", rp, owner,
